@@ -86,4 +86,8 @@ theorem mem_setKV_key (k v v' : String) (kvs : List KV) (h : (k, v') ∈ setKV k
   · exact h
   · exact absurd trivial h
 
+theorem mem_eraseKV (k k' v' : String) (kvs : List KV) :
+    (k', v') ∈ eraseKV k kvs ↔ (k', v') ∈ kvs ∧ k' ≠ k := by
+  simp [eraseKV]
+
 end Sbepp.Gen.Traits
